@@ -1136,6 +1136,104 @@ def _run_modaxis(ctx, cases, pp, model_jobs):
 
 
 # ------------------------------------------------------------------------------------------------
+# stream: events registered with a Sequence (they carry library ids); outputs go to add_block and are decoded again
+def gen_zero_ended(rng, sysd, ch):
+    k = rng.random()
+    g = gen_trap(rng, sysd) if k < 0.5 else gen_ext(rng, sysd, zero_ends=True) if k < 0.8 else \
+        gen_arb(rng, sysd, zero_ends=True)
+    return dict(g, ch=ch)
+
+
+def gen_registered_cases(rng, n):
+    cs = []
+    for i in range(n):
+        sysd = gen_sys(rng)
+        op = rng.choice(['scale', 'scale', 'align', 'align', 'align', 'splitat', 'split3'])
+        c = {'stream': 'registered', 'op': op, 'sys': sysd}
+        if op == 'scale':
+            c['g'] = gen_zero_ended(rng, sysd, rng.choice(gl.CHN))
+            c['k'] = rng.choice(FACTORS) if rng.random() < 0.8 else rng.uniform(-3, 3)
+        elif op == 'align':
+            evs = []
+            if rng.random() < 0.5:
+                evs.append({'kind': 'rf', 'flip': 0.5, 'dur': rng.randint(10, 300) * 1e-5, 'delay': rng.choice([0.0, 1e-4])})
+            if rng.random() < 0.5:
+                evs.append({'kind': 'adc', 'num': rng.choice([16, 64]), 'dwell': rng.choice([1e-5, 4e-6]),
+                            'delay': rng.choice([0.0, 2e-5])})
+            for ch in gl.CHN:
+                if rng.random() < 0.6:
+                    evs.append(gen_zero_ended(rng, sysd, ch))
+            if not evs or rng.random() < 0.3:
+                evs.append({'kind': 'delay', 'delay': rng.randint(1, 400) * 1e-5})
+            rng.shuffle(evs)
+            c['events'] = [(rng.choice(['left', 'center', 'right']), e) for e in evs]
+        elif op == 'splitat':
+            g = gen_trap(rng, sysd) if rng.random() < 0.6 else gen_ext(rng, sysd)
+            c['g'] = g
+            ke = g['k'][0] + total_k(g)
+            c['K'] = rng.randint(1, max(1, ke - 1))
+        else:
+            c['g'] = gen_trap(rng, sysd, triangle=False)
+        cs.append(c)
+    return cs
+
+
+def run_registered(ctx, cases):
+    import pypulseq as pp
+    for c in cases:
+        system = gl.make_system(c['sys'])
+        raster = c['sys']['raster']
+        seq = pp.Sequence(system)
+        op = c['op']
+        ctx.count('registered.' + op)
+        try:
+            if op == 'align':
+                evs = [build_event(d, system) for _, d in c['events']]
+                gl.register_events(seq, evs)
+                kwargs = {}
+                for (sp, _), e in zip(c['events'], evs):
+                    kwargs.setdefault(sp, []).append(e)
+                ins = evs
+                outs = list(pp.align(**kwargs))
+            else:
+                g = gl.build_grad(c['g'], system)
+                gl.register_events(seq, [g])
+                ins = [g]
+                if op == 'scale':
+                    outs = [pp.scale_grad(g, c['k'])]
+                elif op == 'splitat':
+                    outs = list(pp.split_gradient_at(g, c['K'] * raster, system))
+                else:
+                    outs = list(pp.split_gradient(g, system))
+        except Exception as e:
+            ctx.evaluated(('registered', str(c)), nontrivial=False)
+            if op in ('scale', 'align'):
+                ctx.fail('C18/registered-%s-raises' % op, c, {'exception': repr(e)})
+            continue
+        ctx.evaluated(('registered', str(c)))
+        st = gl.stale_id(ins, outs)
+        if st is not None:
+            # the result is a new event; with the id of the input, add_block stores the INPUT event instead
+            ctx.fail('C18/%s-keeps-library-id' % ('split' if op.startswith('split') else op), c,
+                     {'output_index': st[0], 'id': repr(st[1]), 'kind': getattr(outs[st[0]], 'type', '?')})
+            continue
+        if op.startswith('split'):
+            continue            # the parts start/end away from zero: not addable on their own
+        try:
+            seq.add_block(*outs)
+        except Exception as e:
+            ctx.fail('C18/registered-%s-add-block-raises' % op, c, {'exception': repr(e)})
+            continue
+        sc = Fraction(1)
+        for o in outs:
+            if getattr(o, 'type', None) in ('grad', 'trap'):
+                sc = max(sc, amp_scale_of(o))
+        d = gl.stored_differs(seq, 1, outs, raster, sc)
+        if d is not None:
+            ctx.fail('C18/%s-stored-block' % op, c, d)
+
+
+# ------------------------------------------------------------------------------------------------
 def corpus():
     s = {'raster': 1e-5, 'max_grad': MAXG, 'max_slew': MAXS}
     t = {'kind': 'trap', 'ch': 'x', 'amp': 100000.0, 'rise': 2e-5, 'flat': 1e-3, 'fall': 2e-5, 'delay': 5e-5,
@@ -1162,7 +1260,7 @@ def corpus():
     return cs
 
 
-RUNNERS_BY_STREAM = {'scale': run_scale, 'split3': run_split3, 'splitat': run_splitat, 'align': run_align,
+RUNNERS_BY_STREAM = {'registered': run_registered, 'scale': run_scale, 'split3': run_split3, 'splitat': run_splitat, 'align': run_align,
                      'modaxis': run_modaxis}
 
 
@@ -1188,7 +1286,8 @@ def run(ctx):
     cases += gen_splitat_cases(ctx.rng('splitat'), 130 * mult, 24 if not big else 60)
     cases += gen_splitat_special(ctx.rng('splitat-special'), 120 * mult)
     cases += gen_align_cases(ctx.rng('align'), 450 * mult)
-    cases += gen_modaxis_cases(ctx.rng('modaxis'), 150 * mult)
+    cases += gen_modaxis_cases(ctx.rng('modaxis'), 200 * mult)
+    cases += gen_registered_cases(ctx.rng('registered'), 200 * mult)
     for i, c in enumerate(cases):
         if i % 531 == 7:
             ctx.sample(c)
